@@ -12,6 +12,7 @@ import (
 	"go.minekube.com/gate/pkg/edition/java/proto/packet/tablist/legacytablist"
 	"go.minekube.com/gate/pkg/edition/java/proto/packet/tablist/playerinfo"
 	"go.minekube.com/gate/pkg/edition/java/proto/version"
+	"go.minekube.com/gate/pkg/edition/java/proxy/player"
 	"go.minekube.com/gate/pkg/edition/java/proxy/tablist"
 	"go.minekube.com/gate/pkg/gate/proto"
 	"go.minekube.com/gate/pkg/util/uuid"
@@ -189,8 +190,8 @@ func (t *TabList) Add(entries ...tablist.Entry) error {
 		if err != nil {
 			return fmt.Errorf("error adding tab list entry %s: %w", entry.Profile(), err)
 		}
-		if len(pkt.ActionSet) == 0 {
-			continue
+		if pkt == nil || len(pkt.ActionSet) == 0 {
+			continue // unchanged entry: add returns no packet
 		}
 		err = t.Viewer.BufferPacket(pkt)
 		if err != nil {
@@ -289,7 +290,9 @@ func (t *TabList) add(entry tablist.Entry) (*playerinfo.Upsert, error) {
 			actions = append(actions, playerinfo.UpdateListOrderAction)
 			playerInfoEntry.ListOrder = entry.ListOrder()
 		}
-		if entry.ShowHat() && t.Viewer.Protocol().GreaterEqual(version.Minecraft_1_21_4) {
+		if t.Viewer.Protocol().GreaterEqual(version.Minecraft_1_21_4) {
+			// Always tell the client: it shows the hat of a new entry by default,
+			// so ShowHat() == false must be sent as well.
 			actions = append(actions, playerinfo.UpdateHatAction)
 			playerInfoEntry.ShowHat = entry.ShowHat()
 		}
@@ -371,7 +374,13 @@ func (t *TabList) processUpdateForEntry(actions []playerinfo.UpsertAction, info 
 	}
 	if playerinfo.ContainsAction(actions, playerinfo.InitializeChatAction) {
 		doInternalEntity(currentEntry, func(e internalEntry) {
-			e.SetChatSessionInternal(info.RemoteChatSession)
+			// A nil *chat.RemoteChatSession must stay a nil player.ChatSession interface,
+			// otherwise entry.ChatSession() != nil holds and callers dereference nil.
+			var session player.ChatSession
+			if info.RemoteChatSession != nil {
+				session = info.RemoteChatSession
+			}
+			e.SetChatSessionInternal(session)
 		})
 	}
 	if playerinfo.ContainsAction(actions, playerinfo.UpdateListedAction) {
@@ -382,6 +391,11 @@ func (t *TabList) processUpdateForEntry(actions []playerinfo.UpsertAction, info 
 	if playerinfo.ContainsAction(actions, playerinfo.UpdateListOrderAction) {
 		doInternalEntity(currentEntry, func(e internalEntry) {
 			e.SetListOrderInternal(info.ListOrder)
+		})
+	}
+	if playerinfo.ContainsAction(actions, playerinfo.UpdateHatAction) {
+		doInternalEntity(currentEntry, func(e internalEntry) {
+			e.SetShowHatInternal(info.ShowHat)
 		})
 	}
 	return nil
